@@ -229,6 +229,8 @@ def rand_q(rnd, lo=-5, hi=5, dens=(1, 2, 3, 4, 7)):
 
 
 def rand_points(rnd, n, dim):
+    if rnd.random() < 0.12:
+        return [[F(rnd.randint(-9, 9)) for _ in range(dim)] for _ in range(n)]     # all integral (see implib.points)
     return [[rand_q(rnd) for _ in range(dim)] for _ in range(n)]
 
 
